@@ -56,6 +56,7 @@ type Exec struct {
 	fnByKey     map[string]*ssa.Function
 	loopFreshFn func(v ssa.Value, depth int) bool
 	allocRankN  int
+	pure        *pureCtx
 	alias       map[*ssa.Function]string
 }
 
